@@ -193,21 +193,34 @@ class Model:
         self._constraints.append(constraint)
 
     def _flatten_sum(self, expr):
-        terms = []
+        """Linear form of an expression tree: ({variable name: coefficient}, constant)."""
+        coefs: dict[str, int] = {}
         const = 0
 
-        def flatten(e):
+        def flatten(e, k):
             nonlocal const
             if isinstance(e, IntVar):
-                terms.append(e)
+                coefs[e.name] = coefs.get(e.name, 0) + k
             elif isinstance(e, int):
-                const += e
+                const += k * e
+            elif isinstance(e, Expr):
+                flatten(e.data, k)
             elif isinstance(e, tuple) and e[0] == "add":
-                flatten(e[1])
-                flatten(e[2])
+                flatten(e[1], k)
+                flatten(e[2], k)
+            elif isinstance(e, tuple) and e[0] == "sub":
+                flatten(e[1], k)
+                flatten(e[2], -k)
+            elif isinstance(e, tuple) and e[0] == "rsub":  # e[2] - e[1]
+                flatten(e[2], k)
+                flatten(e[1], -k)
+            elif isinstance(e, tuple) and e[0] == "mul":
+                flatten(e[1], k * e[2])
+            else:
+                raise TypeError(f"unsupported expression in constraint: {e!r}")
 
-        flatten(expr)
-        return terms, const
+        flatten(expr, 1)
+        return coefs, const
 
     def sum_eq(self, variables, target):
         return ("sum_eq", tuple(variables), target)
@@ -409,29 +422,47 @@ class Model:
         return True
 
     def _propagate_ne_expr(self, left, right, is_ne: bool, domains: dict[str, set[int]]) -> bool:
-        """Propagate (left_expr != right_expr) or (left_expr == right_expr)."""
-        left_terms, left_const = self._flatten_sum(left)
-        right_terms, right_const = self._flatten_sum(right)
+        """Propagate (left_expr != right_expr) or (left_expr == right_expr).
 
-        if len(left_terms) == 1 and len(right_terms) == 1:
-            var1, var2 = left_terms[0], right_terms[0]
-            offset = right_const - left_const
+        Both sides are linear; the constraint is sum(coef * var) + const (== or !=) 0.
+        """
+        coefs, const = self._flatten_sum(left)
+        right_coefs, right_const = self._flatten_sum(right)
+        for name, k in right_coefs.items():
+            coefs[name] = coefs.get(name, 0) - k
+        const -= right_const
 
-            if is_ne:
-                # var1 != var2 + offset
-                if len(domains[var1.name]) == 1:
-                    v1 = next(iter(domains[var1.name]))
-                    domains[var2.name].discard(v1 - offset)
-                if len(domains[var2.name]) == 1:
-                    v2 = next(iter(domains[var2.name]))
-                    domains[var1.name].discard(v2 + offset)
+        free = []
+        for name, k in coefs.items():
+            if k == 0:
+                continue
+            if len(domains[name]) == 1:
+                const += k * next(iter(domains[name]))
             else:
-                # var1 == var2 + offset
-                valid1 = {v for v in domains[var1.name] if (v - offset) in domains[var2.name]}
-                valid2 = {v for v in domains[var2.name] if (v + offset) in domains[var1.name]}
-                if not valid1 or not valid2:
-                    return False
-                domains[var1.name] = valid1
-                domains[var2.name] = valid2
+                free.append(name)
+
+        if not free:
+            return (const != 0) if is_ne else (const == 0)
+
+        if len(free) == 1:
+            name, k = free[0], coefs[free[0]]
+            if is_ne:
+                if const % k == 0:
+                    domains[name].discard(-const // k)
+            else:
+                domains[name] = {v for v in domains[name] if k * v + const == 0}
+            return bool(domains[name])
+
+        if len(free) == 2 and not is_ne:
+            n1, n2 = free
+            k1, k2 = coefs[n1], coefs[n2]
+            targets2 = {k2 * v for v in domains[n2]}
+            valid1 = {v for v in domains[n1] if -(k1 * v + const) in targets2}
+            targets1 = {k1 * v for v in valid1}
+            valid2 = {v for v in domains[n2] if -(k2 * v + const) in targets1}
+            if not valid1 or not valid2:
+                return False
+            domains[n1] = valid1
+            domains[n2] = valid2
 
         return True
